@@ -12,10 +12,12 @@ and a `rest` that cannot prolong the region, then the scan step of the lexer at 
 `Lexer.get_tokens` over the regenerated rule table) emits exactly one token of the region's type that ends right after the
 closer — whatever precedes `p`, whatever the body contains (`;`, keywords, other openers, line breaks where allowed).
 
-Each theorem is tied to the generated rule it relies on by a definitional equation `Gen.reN = template`
-(`SqlProofs/LexRegions.lean`: `re0_eq … re26_eq`); that no earlier rule of the table can match at the opener is computed
-over the generated table (`dead_before_*`).  Code points are `Nat`; classes such as `[\s\S]`, `.` and `[^']` contain
-exactly the code points ≤ 0x10FFFF, hence the bound on body characters.
+Each theorem is tied to the generated table by one obligation `…_rule_first` (SqlProofs/LexRegions.lean, LexDollar.lean; a computation
+`firstWith pre rule defaultCfg.rules = true`): the table contains the rule `⟨template, action⟩`, found **by content** — no rule index and no
+atom number occurs anywhere — and every rule before its first occurrence cannot start at the opener's first character (or is the hint rule
+sharing the opener, excluded by a direct argument).  So adding, removing or reordering rules that cannot start at the opener leaves every
+obligation intact, while a change of the region's regular expression or token type breaks it.  Code points are `Nat`; classes such as
+`[\s\S]`, `.` and `[^']` contain exactly the code points ≤ 0x10FFFF, hence the bound on body characters.
 
 Vocabulary (defined in SqlProofs/Lex/Basic.lean and SqlProofs/Lex/Comments.lean):
 * `QBody q noBs body` — `body` is a sequence of units, each a doubled quote `q q` or one code point ≤ 0x10FFFF other than `q`
@@ -105,29 +107,29 @@ theorem dollar_quoted (s : Array Cp) (p : Nat) (pre tag body rest : List Cp)
 
 /-! ## from one scan step to the output of `lexer.tokenize`
 
-`Boundary defaultCfg (defaultCfg.env s) p` — `p` is a scan position of the lexer on `s`: 0, or the end of the token emitted at a scan
-position (`Boundary.zero`, `Boundary.next`; `scanNext` is the end of the match, or `p + 1` for an Error token).
+`ScanBoundary defaultCfg (defaultCfg.env s) p` — `p` is a scan position of the lexer on `s`: 0, or the end of the token emitted at a scan
+position (`ScanBoundary.zero`, `ScanBoundary.next`; `scanNext` is the end of the match, or `p + 1` for an Error token).
 `textLen before` is the number of characters the tokens `before` spell. -/
 
 /-- position 0 is a scan position, and scan positions are closed under the emitted tokens -/
-theorem boundary_zero (s : Array Cp) : Boundary defaultCfg (defaultCfg.env s) 0 := Boundary.zero
+theorem boundary_zero (s : Array Cp) : ScanBoundary defaultCfg (defaultCfg.env s) 0 := ScanBoundary.zero
 
-theorem boundary_next (s : Array Cp) (p : Nat) (hb : Boundary defaultCfg (defaultCfg.env s) p) (hlt : p < s.size) :
-    Boundary defaultCfg (defaultCfg.env s) (scanNext defaultCfg (defaultCfg.env s) p) := Boundary.next p hb hlt
+theorem boundary_next (s : Array Cp) (p : Nat) (hb : ScanBoundary defaultCfg (defaultCfg.env s) p) (hlt : p < s.size) :
+    ScanBoundary defaultCfg (defaultCfg.env s) (scanNext defaultCfg (defaultCfg.env s) p) := ScanBoundary.next p hb hlt
 
 /-- scan positions are exactly the offsets at which the tokens of the output start (plus the end of the text) -/
 theorem boundary_iff_token_offset (s : Array Cp) (ts : List Tok) (h : lex defaultCfg s = .ok ts) (p : Nat) :
-    Boundary defaultCfg (defaultCfg.env s) p ↔ ∃ before after, ts = before ++ after ∧ textLen before = p :=
+    ScanBoundary defaultCfg (defaultCfg.env s) p ↔ ∃ before after, ts = before ++ after ∧ textLen before = p :=
   boundary_iff_offset s ts h p
 
 /-- **a scan step is a token of the output.** If `p` is a scan position and the scan step at `p` yields `(ty, e)` — which is what each
 region theorem above establishes — then `lex defaultCfg s` contains the token of type `ty` and value `s[p..e)` immediately after tokens
 that spell `s[0..p)`, and `e` is again a scan position. -/
 theorem lex_emits_region (s : Array Cp) (p : Nat) (ty : TType) (e : Nat)
-    (hb : Boundary defaultCfg (defaultCfg.env s) p)
+    (hb : ScanBoundary defaultCfg (defaultCfg.env s) p)
     (hfm : firstMatch (defaultCfg.env s) defaultCfg.rules p = some (.tok ty, e)) :
     ∃ ts before after, lex defaultCfg s = .ok ts ∧ ts = before ++ ⟨ty, (s.extract p e).toList⟩ :: after ∧
-      textLen before = p ∧ Boundary defaultCfg (defaultCfg.env s) e :=
+      textLen before = p ∧ ScanBoundary defaultCfg (defaultCfg.env s) e :=
   lex_emits s p ty e hb hfm
 
 /-- the composition, for single-quoted strings: at a scan position, `'body'` (well-formed body, not followed by `'`) is one
@@ -135,9 +137,9 @@ theorem lex_emits_region (s : Array Cp) (p : Nat) (ty : TType) (e : Nat)
 the next scan position. -/
 theorem single_quoted_in_output (s : Array Cp) (p : Nat) (pre body rest : List Cp)
     (h : s.toList = pre ++ [39] ++ body ++ [39] ++ rest) (hp : pre.length = p)
-    (hb : Boundary defaultCfg (defaultCfg.env s) p) (hq : QBody 39 true body) (hr : rest.head? ≠ some 39) :
+    (hb : ScanBoundary defaultCfg (defaultCfg.env s) p) (hq : QBody 39 true body) (hr : rest.head? ≠ some 39) :
     ∃ ts before after, lex defaultCfg s = .ok ts ∧ ts = before ++ ⟨T.StringSingle, [39] ++ body ++ [39]⟩ :: after ∧
-      textLen before = p ∧ Boundary defaultCfg (defaultCfg.env s) (p + ([39] ++ body ++ [39]).length) := by
+      textLen before = p ∧ ScanBoundary defaultCfg (defaultCfg.env s) (p + ([39] ++ body ++ [39]).length) := by
   refine region_in_lex s p pre ([39] ++ body ++ [39]) rest T.StringSingle (by simpa using h) hp hb ?_
   have := single_quoted s p pre body rest h hp hq hr
   rw [this]; simp; omega
@@ -145,10 +147,10 @@ theorem single_quoted_in_output (s : Array Cp) (p : Nat) (pre body rest : List C
 /-- the same for block comments: after any prefix that ends at a scan position, `/*body*/` is one `Comment.Multiline` token of the output -/
 theorem block_comment_in_output (s : Array Cp) (p : Nat) (pre body rest : List Cp)
     (h : s.toList = pre ++ [47, 42] ++ body ++ [42, 47] ++ rest) (hp : pre.length = p)
-    (hb : Boundary defaultCfg (defaultCfg.env s) p)
+    (hb : ScanBoundary defaultCfg (defaultCfg.env s) p)
     (hplus : body.head? ≠ some 43) (hno : ¬ [42, 47] <:+: body) (hle : ∀ c ∈ body, c ≤ 1114111) :
     ∃ ts before after, lex defaultCfg s = .ok ts ∧ ts = before ++ ⟨T.CommentMultiline, [47, 42] ++ body ++ [42, 47]⟩ :: after ∧
-      textLen before = p ∧ Boundary defaultCfg (defaultCfg.env s) (p + ([47, 42] ++ body ++ [42, 47]).length) := by
+      textLen before = p ∧ ScanBoundary defaultCfg (defaultCfg.env s) (p + ([47, 42] ++ body ++ [42, 47]).length) := by
   refine region_in_lex s p pre ([47, 42] ++ body ++ [42, 47]) rest T.CommentMultiline (by simpa using h) hp hb ?_
   have := block_comment s p pre body rest h hp hplus hno hle
   rw [this]; simp; omega
@@ -165,17 +167,21 @@ theorem keyword_case_invariant (w w' : Text) (hw : ∀ c ∈ w, c < 128) (hw' : 
     (h : w'.map asciiFold = w.map asciiFold) : isKeyword defaultCfg w' = isKeyword defaultCfg w :=
   isKeyword_case_invariant w w' hw hw' h
 
-/-- **maximal munch of the word rule** (`\w[$#\w]*`, rule 47, `PROCESS_AS_KEYWORD`): at a `\w` character followed by a run of `[$#\w]`
+/-- table obligation: the generic word rule `\w[$#\w]*` with action `PROCESS_AS_KEYWORD` is in the table -/
+theorem word_rule_present : defaultCfg.rules.contains wordRule = true := word_rule_in_table
+
+/-- **maximal munch of the word rule** (`\w[$#\w]*`, `PROCESS_AS_KEYWORD`): at a `\w` character followed by a run of `[$#\w]`
 characters and then a character outside `[$#\w]` or the end of the text, the first derivation ends exactly at the end of the run. -/
 theorem word_rule_munch (E : Env) (p : Nat) (c0 : Cp) (run tail : List Cp)
     (h0 : E.s.toList.drop p = c0 :: (run ++ tail)) (hc0 : Gen.wordSet.mem c0 = true)
     (hrun : ∀ x ∈ run, wordTailSet.mem x = true) (htail : ∀ x, tail.head? = some x → wordTailSet.mem x = false) :
-    ∃ more, derivs E Gen.re47 ⟨p, []⟩ = ⟨p + 1 + run.length, []⟩ :: more :=
+    ∃ more, derivs E wordRule.re ⟨p, []⟩ = ⟨p + 1 + run.length, []⟩ :: more :=
   word_rule_maximal_munch E p c0 run tail h0 hc0 hrun htail
 
-/-- table obligation (evaluated over dictionaries × rule table): the dictionary entries that fail the certificate `wordCert` are exactly
-the listed ones -/
-theorem dictionary_certified : dictWords.filter (fun w => !wordCert w) = uncertified := dict_words_certified
+/-- table obligation (evaluated over dictionaries × rule table): every dictionary entry passes the certificate `wordCert` or is one of the
+listed exceptions; and none of the listed exceptions passes it -/
+theorem dictionary_certified : (dictWords.all fun w => wordCert w || uncertified.contains w) = true := dict_words_certified
+theorem exceptions_tight : (uncertified.all fun w => !wordCert w) = true := uncertified_tight
 
 /-- **dictionary words are word-rule tokens** (universal in the text, the position and the delimiter): a dictionary word other than the
 listed exceptions, in its dictionary spelling, before a delimiter and not right after a `.`, is matched by no earlier rule; the scan step is
@@ -190,9 +196,9 @@ theorem dict_word (s : Array Cp) (p : Nat) (pre w rest : List Cp) (c : Cp)
 theorem dict_word_in_lex_output (s : Array Cp) (p : Nat) (pre w rest : List Cp) (c : Cp)
     (hw : w ∈ dictWords) (hn : w ∉ uncertified)
     (h : s.toList = pre ++ w ++ c :: rest) (hp : pre.length = p) (hprev : pre.getLast? ≠ some 46) (hc : WordDelim c)
-    (hb : Boundary defaultCfg (defaultCfg.env s) p) :
+    (hb : ScanBoundary defaultCfg (defaultCfg.env s) p) :
     ∃ ts before after, lex defaultCfg s = .ok ts ∧ ts = before ++ ⟨isKeyword defaultCfg w, w⟩ :: after ∧
-      textLen before = p ∧ Boundary defaultCfg (defaultCfg.env s) (p + w.length) :=
+      textLen before = p ∧ ScanBoundary defaultCfg (defaultCfg.env s) (p + w.length) :=
   dict_word_in_output s p pre w rest c hw hn h hp hprev hc hb
 
 /-- the same for any word (not only dictionary words) that passes the certificate, e.g. a lower-case spelling or an identifier -/
@@ -202,13 +208,35 @@ theorem certified_word (s : Array Cp) (p : Nat) (pre w rest : List Cp) (c : Cp)
     firstMatch (defaultCfg.env s) defaultCfg.rules p = some (.kw, p + w.length) :=
   word_token s p pre w rest c h hp hprev hc hcert
 
-/-- **evaluated on the concrete text `w;` only** (not universal): for the words with a dedicated rule the scan step at 0 is taken by
-rule 36 (`CREATE`, DDL), rule 16 (`FROM IN AS CASE USING VALUES`, Keyword), rule 29 (`JOIN`), rule 30 (`END`), rule 45
-(`LIKE ILIKE RLIKE`, Comparison), rule 46 (`REGEXP`); `WITH;` is taken by the word rule -/
+/-- **the certificate ignores ASCII case** (every class of the generated table is closed under ASCII case, `rules_case_closed`) -/
+theorem word_cert_case (w' w : Text) (h : w'.map asciiFold = w.map asciiFold) : wordCert w' = wordCert w :=
+  wordCert_case w' w h
+
+/-- **dictionary words in every casing** (universal in the text, the position, the delimiter and the casing): for a dictionary word `w`
+other than the listed exceptions and any spelling `w'` equal to it up to the case of ASCII letters, before a delimiter and not right after
+a `.`: the scan step is the word rule's over exactly `w'`, and `is_keyword` gives it the dictionary type of `w`. -/
+theorem dict_word_any_casing (s : Array Cp) (p : Nat) (pre w w' rest : List Cp) (c : Cp)
+    (hw : w ∈ dictWords) (hn : w ∉ uncertified) (hcase : w'.map asciiFold = w.map asciiFold)
+    (h : s.toList = pre ++ w' ++ c :: rest) (hp : pre.length = p) (hprev : pre.getLast? ≠ some 46) (hc : WordDelim c) :
+    firstMatch (defaultCfg.env s) defaultCfg.rules p = some (.kw, p + w'.length) ∧
+      isKeyword defaultCfg w' = isKeyword defaultCfg w :=
+  dict_word_any_case s p pre w w' rest c hw hn hcase h hp hprev hc
+
+/-- … and at a scan position the output of `lex` has the token `(type of w, w')` at that offset -/
+theorem dict_word_any_casing_in_lex_output (s : Array Cp) (p : Nat) (pre w w' rest : List Cp) (c : Cp)
+    (hw : w ∈ dictWords) (hn : w ∉ uncertified) (hcase : w'.map asciiFold = w.map asciiFold)
+    (h : s.toList = pre ++ w' ++ c :: rest) (hp : pre.length = p) (hprev : pre.getLast? ≠ some 46) (hc : WordDelim c)
+    (hb : ScanBoundary defaultCfg (defaultCfg.env s) p) :
+    ∃ ts before after, lex defaultCfg s = .ok ts ∧ ts = before ++ ⟨isKeyword defaultCfg w, w'⟩ :: after ∧
+      textLen before = p ∧ ScanBoundary defaultCfg (defaultCfg.env s) (p + w'.length) :=
+  dict_word_any_case_in_output s p pre w w' rest c hw hn hcase h hp hprev hc hb
+
+/-- **evaluated on the concrete text `w;` only** (not universal): for the words with a dedicated rule the scan step at 0 yields that
+rule's token — `CREATE` DDL; `FROM IN AS CASE USING VALUES JOIN END` Keyword; `LIKE ILIKE RLIKE REGEXP` Comparison — and `WITH;` is
+taken by the word rule -/
 theorem dedicated_rule_words :
     (dedicated.all fun e =>
-      decide (firstMatch (defaultCfg.env (txt e.1 ++ [59]).toArray) defaultCfg.rules 0 = some (e.2.2.1, e.2.2.2)) &&
-      decide (firstRuleIdx (defaultCfg.env (txt e.1 ++ [59]).toArray) defaultCfg.rules 0 0 = some e.2.1)) = true :=
+      decide (firstMatch (defaultCfg.env (txt e.1 ++ [59]).toArray) defaultCfg.rules 0 = some (e.2.1, e.2.2))) = true :=
   dedicated_rules
 
 /-! ## non-vacuity -/
@@ -252,7 +280,7 @@ example : (lex defaultCfg #[36, 97, 36, 120, 59, 36, 65, 36, 32, 36, 36, 59, 36,
     some [T.Literal, T.Whitespace, T.Literal] := by decide +kernel
 
 /-- `SELECT` in `x SELECT;` instantiates `dict_word` (position 2, after a blank, before `;`) and classifies as DML;
-`select` classifies like `SELECT` by `keyword_case_invariant` -/
+`select` classifies like `SELECT` by `keyword_case_invariant`, and `dict_word_any_casing` covers `sElEcT` -/
 example : firstMatch (defaultCfg.env #[120, 32, 83, 69, 76, 69, 67, 84, 59]) defaultCfg.rules 2 = some (.kw, 2 + 6) :=
   dict_word #[120, 32, 83, 69, 76, 69, 67, 84, 59] 2 [120, 32] [83, 69, 76, 69, 67, 84] [] 59 (by decide +kernel) (by decide +kernel)
     rfl rfl (by decide) (by refine ⟨by decide +kernel, by decide +kernel, by decide, by decide⟩)
@@ -260,5 +288,11 @@ example : firstMatch (defaultCfg.env #[120, 32, 83, 69, 76, 69, 67, 84, 59]) def
 example : isKeyword defaultCfg [115, 101, 108, 101, 99, 116] = T.DML := by
   rw [keyword_case_invariant [83, 69, 76, 69, 67, 84] [115, 101, 108, 101, 99, 116] (by decide) (by decide) (by decide)]
   decide +kernel
+
+example : firstMatch (defaultCfg.env #[115, 69, 108, 69, 99, 84, 59]) defaultCfg.rules 0 = some (.kw, 0 + 6) ∧
+    isKeyword defaultCfg [115, 69, 108, 69, 99, 84] = isKeyword defaultCfg [83, 69, 76, 69, 67, 84] :=
+  dict_word_any_casing #[115, 69, 108, 69, 99, 84, 59] 0 [] [83, 69, 76, 69, 67, 84] [115, 69, 108, 69, 99, 84] [] 59
+    (by decide +kernel) (by decide +kernel) (by decide) rfl rfl (by decide)
+    (by refine ⟨by decide +kernel, by decide +kernel, by decide, by decide⟩)
 
 end Sql.C14
